@@ -122,6 +122,16 @@ pub fn run(ctx: &Ctx) -> i32 {
         st.count("cluster_and_blank_repeat_cases");
         check_case(ctx, st, &det[i % det.len()], Settings::new(det_settings[i / det.len()]));
     });
+    // literal text resembling class tokens next to members of that class
+    {
+        let look = gen::token_lookalike_cases();
+        let extra = [0, REP, REP | ESC, REP | VERB, REP | CAP, CI];
+        par_for(&ctx.run, look.len() * extra.len(), |i, st| {
+            let (tcs, f) = &look[i % look.len()];
+            st.count("token_lookalike_cases");
+            check_case(ctx, st, tcs, Settings::new(f | extra[i / look.len()]));
+        });
+    }
     // 3. structured random families over adversarial alphabets x random lattice points
     let n = if ctx.thorough { 400_000 } else { 24_000 };
     let alphabets: Vec<(String, Vec<String>)> = gen::ALPHABETS.iter().map(|a| (a.to_string(), gen::alphabet(a))).collect();
